@@ -46,6 +46,10 @@ func Dial(p *sut.Proc, mods string, flags string) (*C, error) {
 }
 
 func dial(p *sut.Proc, mods string, flags string) (*C, error) {
+	if p.RealToken != "" {
+		// the real binary: modules and flags are what cmd/main.go wires
+		return DialReal(p, p.RealToken)
+	}
 	id := int(connSeq.Add(1))
 	q := url.Values{"mods": {mods}}
 	if flags != "" {
@@ -201,6 +205,13 @@ func IsErr(e *d.Event) (int32, bool) {
 // Departed waits until websocket.Handle has returned for c's connection
 // (departure barrier). ok=false means it never did within the bound.
 func Departed(p *sut.Proc, c *C, bound time.Duration) (bool, error) {
+	if p.RealToken != "" {
+		// the real binary has no per-connection bookkeeping endpoint: the socket is
+		// seen closed, then a moment for the handler to finish (cleanup use only)
+		c.WaitClosed()
+		time.Sleep(20 * time.Millisecond)
+		return true, nil
+	}
 	deadline := time.Now().Add(bound)
 	for {
 		ci, err := p.Conns(c.CID)
